@@ -15,7 +15,11 @@ Open Scope N_scope.
 Inductive pcond := PAlways | PMulti | PSingle.
 (** [PSubN ex n]: the same substitution limited to the first [n] matches ([R.sub(cb, text, n)] / [count=n], n > 0;
     round 3 - such a pipeline has a model, so the correspondences follow the code, but it is never [single_sub]). *)
-Inductive pstep := PSub (exclude : list char) | PReplace (old new : str) | PSubN (exclude : list char) (count : N).
+(** [PSubLA ex la]: the substitution whose regex carries negative look-aheads: for [(x, y)] in [la] the alternative for [x] is
+    [x(?!y)], so an [x] directly followed by [y] is not matched and is copied (round 5 - "only a lone CR needs escaping").  It has a
+    model, so the correspondences follow the code, but it is never [single_sub]: it does not act on every character independently. *)
+Inductive pstep := PSub (exclude : list char) | PReplace (old new : str) | PSubN (exclude : list char) (count : N)
+                 | PSubLA (exclude : list char) (la : list (char * char)).
 Definition pipeline := list (pcond * pstep).
 
 Definition applies (c : pcond) (ml : bool) : bool :=
@@ -60,11 +64,24 @@ Fixpoint sub_step_n (tbl : list (char * char)) (ex : list char) (n : nat) (s : s
     end
   end.
 
+(** The regex is tried at every position: the alternative [x(?!y)] does not match an [x] whose next character is [y]; no other
+    alternative matches [x], so it is copied and matching resumes at the next character. *)
+Definition la_blocked (la : list (char * char)) (c : char) (r : str) : bool :=
+  match r with d :: _ => existsb (fun p => (fst p =? c) && (snd p =? d)) la | [] => false end.
+Fixpoint sub_step_la (tbl : list (char * char)) (ex : list char) (la : list (char * char)) (s : str) : str :=
+  match s with
+  | [] => []
+  | c :: r => (if la_blocked la c r then [c] else sub_char tbl ex c) ++ sub_step_la tbl ex la r
+  end.
+Fixpoint pairs_of (l : list N) : list (N * N) :=
+  match l with x :: y :: r => (x, y) :: pairs_of r | _ => [] end.
+
 Definition run_step (tbl : list (char * char)) (st : pstep) (s : str) : str :=
   match st with
   | PSub ex => sub_step tbl ex s
   | PReplace o n => replace_all o n s
   | PSubN ex n => sub_step_n tbl ex (N.to_nat n) s
+  | PSubLA ex la => sub_step_la tbl ex la s
   end.
 
 Definition effective (p : pipeline) (ml : bool) : list pstep :=
@@ -85,8 +102,10 @@ Definition excl_of (p : pipeline) (ml : bool) : list char :=
 Definition step_of_row (r : N * N * list N * list N) : pcond * pstep :=
   let '(c, k, a, b) := r in
   ((if c =? 0 then PAlways else if c =? 1 then PMulti else PSingle),
-   (if k =? 0 then PSub a else if k =? 1 then PReplace a b else PSubN a (match b with n :: _ => n | [] => 0 end))).
+   (if k =? 0 then PSub a else if k =? 1 then PReplace a b else if k =? 2 then PSubN a (match b with n :: _ => n | [] => 0 end)
+    else PSubLA a (pairs_of b))).
 Definition rows_wellformed (rs : list (N * N * list N * list N)) : bool :=
-  forallb (fun r => let '(c, k, a, b) := r in (c <=? 2) && (k <=? 2)
-    && ((k =? 0) || (k =? 2) || negb (N.of_nat (length a) =? 0))
-    && (negb (k =? 2) || match b with [n] => 0 <? n | _ => false end)) rs.
+  forallb (fun r => let '(c, k, a, b) := r in (c <=? 2) && (k <=? 3)
+    && ((k =? 0) || (k =? 2) || (k =? 3) || negb (N.of_nat (length a) =? 0))
+    && (negb (k =? 2) || match b with [n] => 0 <? n | _ => false end)
+    && (negb (k =? 3) || (Nat.even (length b) && negb (Nat.eqb (length b) 0)))) rs.
